@@ -7,9 +7,11 @@ Decided on the real source:
   (b) extract_pincited_reference_citations: every reference starts at or after the end of its citation's
       span, 0 <= full start <= start <= end <= full end <= len(text), and its token text is the slice at its
       span (vf.harness.c02.HRef).
+  (c) find_reference_citations_from_markup (vf.harness.c19m): with both offset translators built by the real
+      SpanUpdater from a symbolic diff script and its inverse, every markup-derived reference has valid
+      offsets in the plain text and does not start before its citation.
 NOT decided: clean_text(..., ['html']) (lxml), hence "exactly the citations of the cleaned plain text" as a
-whole-pipeline statement; find_reference_citations_from_markup's offset translation is covered only through
-C10's SpanUpdater clauses (monotone, in range).
+whole-pipeline statement.
 """
 import logging
 
@@ -40,6 +42,15 @@ def check(rep):
     rep.oblige(n_ok)
     rep.oblige(n_ob - n_ok, ok=False)
     cex2 = [f for f in agg2["findings"] if f["clause"].startswith("C19") or f["clause"].startswith("C04")]
+    agg3 = common.explore_split("vf.harness.c19m", {"K": 3 if quick else 4}, depth=4)
+    rep.merge_explore("markup_references", agg3)
+    n_ob = sum(agg3["verdicts"].values())
+    n_ok = sum(v for k, v in agg3["verdicts"].items() if k.endswith(":valid"))
+    rep.oblige(n_ok)
+    rep.oblige(n_ob - n_ok, ok=False)
+    cex2 = cex2 + list(agg3["findings"])
+    rep.bounds.append(f"(c) find_reference_citations_from_markup with both SpanUpdaters built from a symbolic script of <= {3 if quick else 4} blocks and its inverse, <= 2 tag matches after the citation")
+    rep.assumptions.append("(c) the citation's span start lies in a block that is equal in plain text and markup")
     rep.distinct = rep.evaluations
     for f in cex + cex2:
         if f["verdict"] != "cex":
@@ -73,6 +84,13 @@ def check(rep):
 
 
 def documents():
+    wrap = ["", "<div class=\"opinion\"><p id=\"b12-4\">", "<div><section data-x=\"1234567890\"><p>"]
+    core = ["The rule in <em>Foo</em> is settled. <em>See</em> <em>Foo</em> v. <em>Bar</em>, 1 U.S. 1 (1999). Under <em>Foo</em>, all is well.", "<i>Foo</i> said so. <i>Foo</i> v. <i>Bar</i>, 1 U.S. 1, 2 S. Ct. 3 (1999). Later <i>Bar</i> agreed."]
+    extra = [w + c_ for w in wrap for c_ in core]
+    return extra + _documents()
+
+
+def _documents():
     pre = ["<p>See <i>Miranda</i> v. <i>Arizona</i>, 384 U.S. 436, 86 S. Ct. 1602 (1966).</p>", "<p><em>Foo</em> v. <em>Bar</em>, 1 U.S. 1 (1999).</p>", "<div class=\"opinion\"><p id=\"b1\">The rule in <em>Foo</em> is settled. <em>See</em> <em>Foo</em> v. <em>Bar</em>, 1 U.S. 1, 2 S. Ct. 3 (1999).</p>"]
     post = ["<p>Under <i>Miranda</i>, warnings are required.</p>", "<p>In <em>Foo</em>, the court held. <i>Id.</i> at 5; Bar at 7.</p>", "<p>Under <em>Bar,</em> nothing. See <i>Arizona</i>.</p></div>", ""]
     return [a + b for a in pre for b in post]
